@@ -66,6 +66,8 @@ class Ctx:
     def __init__(self, prop, tier, seed):
         self.prop = prop
         self.tier = tier
+        import fmt
+        fmt.REREAD_EVERY = 1 if tier == "thorough" else 2
         self.seed = seed
         self.gen = gen.Gen(seed)
         self.suites = {}
